@@ -2049,7 +2049,13 @@ class unyt_array(np.ndarray):
                 out_arr = ret_class(out_arr, unit, bypass_validation=True)
         if out is not None:
             if mul != 1:
-                multiply(out, mul, out=out)
+                if isinstance(out, np.ndarray):
+                    # scale the buffer itself: going through the unit-aware ufunc again
+                    # recurses forever when out's own unit simplifies to a number (hr/s)
+                    raw = out.view(np.ndarray)
+                    multiply(raw, mul, out=raw)
+                else:
+                    multiply(out, mul, out=out)
                 if np.shares_memory(out_arr, out):
                     mul = 1
             if isinstance(out, unyt_array):
